@@ -70,6 +70,8 @@ pub enum Fixed {
     Bool,
     Cenum(usize),
     Rec(Vec<Fixed>),
+    /// pod-like, NOT Zeroable, `DefaultInit` writes these bytes
+    Podd(Vec<u8>),
 }
 
 impl Fixed {
@@ -78,6 +80,7 @@ impl Fixed {
             Fixed::Pod(n) => *n,
             Fixed::Bool | Fixed::Cenum(_) => 1,
             Fixed::Rec(fs) => fs.iter().map(Fixed::size).sum(),
+            Fixed::Podd(d) => d.len(),
         }
     }
     /// `is_valid_bit_pattern` on the bytes.
@@ -86,7 +89,7 @@ impl Fixed {
             return false;
         }
         match self {
-            Fixed::Pod(_) => true,
+            Fixed::Pod(_) | Fixed::Podd(_) => true,
             Fixed::Bool => b[0] < 2,
             Fixed::Cenum(k) => (b[0] as usize) < *k,
             Fixed::Rec(fs) => {
@@ -106,6 +109,7 @@ impl Fixed {
             Fixed::Pod(n) => format!("(pod {n})"),
             Fixed::Bool => "(bool)".into(),
             Fixed::Cenum(k) => format!("(cenum {k})"),
+            Fixed::Podd(d) => format!("(podd {})", hex(d)),
             Fixed::Rec(fs) => {
                 let mut s = "(rec".to_string();
                 for f in fs {
@@ -252,6 +256,7 @@ pub fn to_fixed(x: &Sx) -> Option<Fixed> {
         ("bool", []) => Some(Fixed::Bool),
         ("cenum", [Sx::Atom(k)]) => Some(Fixed::Cenum(k.parse().ok()?)),
         ("rec", fs) => Some(Fixed::Rec(fs.iter().map(to_fixed).collect::<Option<_>>()?)),
+        ("podd", [Sx::Atom(h)]) => Some(Fixed::Podd(unhex(h)?)),
         _ => None,
     }
 }
@@ -450,8 +455,12 @@ pub fn valid_bits(s: &Shape, v: &Val, owned: bool) -> bool {
     }
 }
 
+/// `T::default_init()`: zeroes, except for the types with a hand-written non-zero default.
 fn zero_val(f: &Fixed) -> Vec<u8> {
-    vec![0u8; f.size()]
+    match f {
+        Fixed::Podd(d) => d.clone(),
+        _ => vec![0u8; f.size()],
+    }
 }
 
 fn init_fixed(f: &Fixed, a: &Init) -> Option<Vec<u8>> {
